@@ -264,7 +264,7 @@ func (ex *executor) apiStep(idx int, st *Step) {
 	}
 	ex.memBegin()
 	nt := func(kind string) {
-		ex.res.Stats.NonTrivial["C05|"+a.Fn+"|"+kind+"|"+nameClass(a.Name)+"|"+cfg.Store+"|"+cfg.Endpoint]++
+		ex.res.Stats.NT("C05|" + a.Fn + "|" + kind + "|" + nameClass(a.Name) + "|" + cfg.Store + "|" + cfg.Endpoint)
 	}
 
 	switch a.Fn {
